@@ -11,7 +11,8 @@ THEOREMS = [
     "Mpir.MulAlgo.toom3_interp_exact", "Mpir.MulAlgo.toom3_mul_val", "Mpir.MulAlgo.toom42_exact", "Mpir.MulAlgo.toom32_exact",
     "Mpir.MulAlgo.toom4_interp_exact", "Mpir.MulAlgo.toom4_mul_val", "Mpir.MulAlgo.toom53_exact",
     "Mpir.MulDispatch.mul_dispatch_safe", "Mpir.MulDispatch.mul_n_dispatch_safe", "Mpir.MulDispatch.sqr_dispatch_safe",
-    "Mpir.FftParams.fft_params_sound_partial",
+    "Mpir.FftParams.fft_params_sound_partial", "Mpir.FftParams.fft_params_sound", "Mpir.FftParams.fftTab_admissible",
+    "Mpir.MulDispatch.params_are_valid",
     "Mpir.MulDispatch.mpn_mul_val_partial",
 ]
 GEN = [gen_params.gen_params, gen_mul_dispatch.gen_mul_dispatch]
